@@ -322,23 +322,62 @@ Section Nested.
       + rewrite (unescape_tokens def retrieve nval ts false Hwf Hf). symmetry. now apply mean_no_ref.
   Qed.
 
+  (* every occurrence of the expanded reference is one node of the expansion tree less *)
+  Lemma cost_nsubst_exact n d ts : good d ts -> cost d (nsubst n ts) + cntref n ts = cost d ts.
+  Proof.
+    induction ts as [|t ts IH]; intros Hg; [reflexivity|].
+    inversion Hg as [|? ? Ht Hts]; subst. specialize (IH Hts).
+    unfold nsubst in *. cbn [flat_map]. rewrite cost_app.
+    change (t :: ts) with ([t] ++ ts). rewrite (cost_app d [t] ts).
+    unfold cntref in *. cbn [app filter].
+    destruct t; cbn [nsubst1]; try (unfold cost at 1 3; destruct d; cbn; lia).
+    destruct (str_eqb name n) eqn:E.
+    - apply str_eqb_eq in E. subst name.
+      destruct (good_ref d n Ht) as [d' [-> [_ [_ Hg']]]].
+      destruct (mono_list d' _ Hg') as [_ [E2 _]]. rewrite E2.
+      unfold cost at 3. cbn [map tcost]. rewrite lsum_cons. fold (cost d' (txt n)).
+      cbn [list_sum fold_right length]. lia.
+    - lia.
+  Qed.
+
+  Lemma nested_rounds_b fuel : forall d ts used,
+    cost d ts < fuel -> used + cost d ts <= max_expansions ->
+    wf def retrieve nval ts -> good d ts -> nanchored d ts ->
+    exists s, expand_rec def retrieve fuel used (CStr (flatten ts)) = Ok (CStr s) /\ unescape s = mean d ts.
+  Proof.
+    induction fuel as [|f IH]; intros d ts used Hk Hb Hwf Hg Ht; [lia|].
+    destruct (first_ref ts) as [n|] eqn:Hf.
+    - pose proof (cost_nsubst_exact n d ts Hg) as He.
+      pose proof (cost_nsubst_lt n d ts Hg Hf) as Hlt.
+      pose proof (spent_round def retrieve nval ts n Hwf (nanchored_anchored d ts Ht) Hf) as Hs.
+      destruct (IH d (nsubst n ts) (used + cntref n ts)) as [s [Hs' Hm]]; try lia.
+      + now apply (wf_nsubst n d).
+      + now apply good_nsubst.
+      + now apply nanchored_nsubst.
+      + exists s. split; [|now rewrite Hm, mean_nsubst].
+        rewrite (expand_rec_changed def retrieve _ _ _ (CStr (flatten (nsubst n ts)))).
+        * now rewrite Hs.
+        * rewrite expand_value_str. now apply (nested_round ts n d).
+        * rewrite Hs. lia.
+    - exists (flatten ts). split.
+      + apply expand_rec_unchanged. rewrite expand_value_str. now apply (last_round def retrieve nval).
+      + rewrite (unescape_tokens def retrieve nval ts false Hwf Hf). symmetry. now apply mean_no_ref.
+  Qed.
+
   Lemma nested_main d ts :
-    wf def retrieve nval ts -> good d ts -> nanchored d ts -> cost d ts < 1000 ->
+    wf def retrieve nval ts -> good d ts -> nanchored d ts -> cost d ts <= max_expansions ->
     resolve_string def retrieve (flatten ts) = Ok (CStr (mean d ts)).
   Proof.
-    intros Hwf Hg Ht Hc. unfold resolve_string, resolve_leaf. rewrite max_rounds_S.
-    destruct (nested_rounds 999 d ts) as [s [Hs Hm]]; auto; [lia|].
-    rewrite (str_rec_er def retrieve _ _ _ Hs). cbn [escape_dollars]. now rewrite Hm.
+    intros Hwf Hg Ht Hc. unfold resolve_string, resolve_leaf. rewrite rec_fuel_S.
+    destruct (nested_rounds_b (S (S max_expansions)) d ts 0) as [s [Hs Hm]]; auto; try lia.
+    rewrite Hs. cbn [escape_dollars]. now rewrite Hm.
   Qed.
 
   (* the number of rounds really is bounded by the measure: with fuel S (cost d ts) the recursion ends *)
   Lemma nested_rounds_within_cost d ts :
-    wf def retrieve nval ts -> good d ts -> nanchored d ts ->
-    exists s, expand_rec def retrieve (S (cost d ts)) (CStr (flatten ts)) = Ok (CStr s) /\ unescape s = mean d ts.
-  Proof.
-    intros Hwf Hg Ht. destruct (nested_rounds (cost d ts) d ts) as [s [Hs Hm]]; auto.
-    exists s. split; [now apply str_rec_er|exact Hm].
-  Qed.
+    wf def retrieve nval ts -> good d ts -> nanchored d ts -> cost d ts <= max_expansions ->
+    exists s, expand_rec def retrieve (S (cost d ts)) 0 (CStr (flatten ts)) = Ok (CStr s) /\ unescape s = mean d ts.
+  Proof. intros Hwf Hg Ht Hc. apply nested_rounds_b; auto; lia. Qed.
 
   (* a reference answered with the text of that very reference: every round reproduces the string *)
   Lemma nsubst_identity n ts : txt n = [TRef n] -> nsubst n ts = ts.
